@@ -1,0 +1,16 @@
+//go:build verif
+
+package freelist
+
+import "go.etcd.io/bbolt/internal/common"
+
+// VerifState returns copies of the free ids and of the pending ids per
+// freeing transaction. Only compiled with the `verif` build tag.
+func VerifState(f Interface) (free common.Pgids, pending map[common.Txid]common.Pgids) {
+	free = append(free, f.freePageIds()...)
+	pending = make(map[common.Txid]common.Pgids)
+	for tid, txp := range f.pendingPageIds() {
+		pending[tid] = append(common.Pgids{}, txp.ids...)
+	}
+	return free, pending
+}
